@@ -661,7 +661,20 @@ class Exec:
             is_lit = True
         except Exception:
             lit, is_lit = None, False
-        if is_lit and isinstance(lit, (str, int, bool, type(None), bytes)):
+        if not is_lit and isinstance(what, (ast.BinOp, ast.UnaryOp)):
+            # arithmetic over other numeric class attributes (e.g. nan_value = -inf_value/inf_value): only its TYPE is used
+            try:
+                env = {}
+                for n in ast.walk(what):
+                    if isinstance(n, ast.Name):
+                        fa2 = self.repo.find_attr(cls, n.id)
+                        env[n.id] = ast.literal_eval(fa2[1])
+                v = eval(compile(ast.Expression(what), '<classattr>', 'eval'), {'__builtins__': {}}, env)
+                if isinstance(v, float):
+                    return Val(V.fl(z3.IntVal(self.w.static('float:%s.%s' % (k.qual, name)))), 'float')
+            except Exception:
+                pass
+        if is_lit and isinstance(lit, (str, int, bool, type(None), bytes, float)):
             return self.e_Constant(ast.Constant(lit), st)
         key = 'classattr:%s.%s' % (k.qual, name)
         if isinstance(what, ast.Call) and ast.unparse(what.func) == 're.compile' and what.args and isinstance(what.args[0], ast.Constant):
@@ -830,6 +843,14 @@ class Exec:
                 if not self.spec_mode:
                     self.raise_if(st, z3.Not(z3.Or(both_s, both_y, both_i)), 'TypeError', 'safe/type-add', e)
                 return Val(z3.If(both_s, mk_s(z3.Concat(sv(a.t), sv(b.t))), z3.If(both_y, mk_y(z3.Concat(yv(a.t), yv(b.t))), mk_i(iv(a.t) + iv(b.t)))), None)
+        if isinstance(op, (ast.Add, ast.Sub, ast.Mult, ast.Div)) and (a.ty == 'float' or b.ty == 'float'):
+            # float arithmetic: operands must be numbers, the value is opaque
+            num = lambda v: z3.Or(is_i(v.t), is_fl(v.t), is_b(v.t))
+            ok = z3.And(num(a), num(b))
+            if not z3.is_true(z3.simplify(ok)):
+                self.raise_if(st, z3.Not(ok), 'TypeError', 'safe/type-float-arith', e)
+            fop = z3.Function('float_' + type(op).__name__.lower(), V, V, z3.IntSort())
+            return Val(V.fl(fop(a.t, b.t)), 'float')
         if isinstance(op, (ast.Add, ast.Sub, ast.Mult, ast.FloorDiv, ast.Mod)):
             if isinstance(op, ast.Mult) and (self.is_strlike(a) or self.is_strlike(b)):
                 s_, n_ = (a, b) if self.is_strlike(a) else (b, a)
@@ -838,6 +859,16 @@ class Exec:
                 r = rep(sv(s_.t), iv(n_.t))
                 st.assume(z3.Length(r) == z3.Length(sv(s_.t)) * z3.If(iv(n_.t) > 0, iv(n_.t), 0))
                 return Val(mk_s(r), 'str')
+            if (a.ty is None or b.ty is None) and isinstance(op, (ast.Add, ast.Sub, ast.Mult)) and not self.spec_mode:
+                # dynamic numeric operands: int op int is exact, anything involving a float is an opaque float
+                num = lambda v: z3.Or(is_i(v.t), is_fl(v.t))
+                both_i = z3.And(is_i(a.t), is_i(b.t))
+                if not z3.is_true(z3.simplify(both_i)):
+                    self.raise_if(st, z3.Not(z3.And(num(a), num(b))), 'TypeError', 'safe/type-arith', e)
+                    x, y = iv(a.t), iv(b.t)
+                    ri = x + y if isinstance(op, ast.Add) else (x - y if isinstance(op, ast.Sub) else x * y)
+                    fop = z3.Function('float_' + type(op).__name__.lower(), V, V, z3.IntSort())
+                    return Val(z3.If(both_i, mk_i(ri), V.fl(fop(a.t, b.t))), None)
             if a.ty != 'int' or b.ty != 'int':
                 both = z3.And(is_i(a.t), is_i(b.t))
                 if not z3.is_true(z3.simplify(both)):
